@@ -47,3 +47,70 @@ class Leaf:
 class Req(pg.Object):
   """Object with a required field (for partial values)."""
   allow_symbolic_assignment = True
+
+
+# ---------------------------------------------------------------------------
+# C09: observable receivers.  LOG collects (kind, receiver, payload).
+# ---------------------------------------------------------------------------
+LOG = []
+_CB = {}
+
+
+@pg.members([
+    ('x', pg.typing.Any(default=None)),
+    ('r', pg.typing.Int()),
+    ('n', pg.typing.Int(default=0)),
+    ('items', pg.typing.List(pg.typing.Any(), default=[])),
+    ('d', pg.typing.Dict(default={})),
+])
+class Obs(pg.Object):
+  """Object that logs its change / bound events and chains to super."""
+  allow_symbolic_assignment = True
+
+  def _on_change(self, field_updates):
+    LOG.append(('change', self, dict(field_updates)))
+    return super()._on_change(field_updates)
+
+  def _on_bound(self):
+    super()._on_bound()
+    LOG.append(('bound', self, None))
+
+
+@pg.members([
+    ('x', pg.typing.Any(default=None)),
+    ('r', pg.typing.Int()),
+    ('items', pg.typing.List(pg.typing.Any(), default=[])),
+])
+class ObsNoSuper(pg.Object):
+  """Object that overrides _on_change without chaining to super."""
+  allow_symbolic_assignment = True
+
+  def _on_change(self, field_updates):
+    LOG.append(('change', self, dict(field_updates)))
+
+
+def cb_dict(*args, **kwargs):
+  cell = []
+  d = pg.Dict(*args, onchange_callback=lambda u: LOG.append(('change', cell[0], dict(u))), **kwargs)
+  cell.append(d)
+  _CB[id(d)] = d
+  return d
+
+
+def cb_list(items):
+  cell = []
+  l = pg.List(items, onchange_callback=lambda u: LOG.append(('change', cell[0], dict(u))))
+  cell.append(l)
+  _CB[id(l)] = l
+  return l
+
+
+def is_subscriber(node):
+  if isinstance(node, (Obs, ObsNoSuper)):
+    return True
+  if isinstance(node, (pg.Dict, pg.List)):
+    # public: the constructor argument is reported by sym_init_args-like API only
+    # for objects; for containers we track the ones the harness built.
+    return id(node) in _CB
+  return False
+
